@@ -12,6 +12,8 @@ nearest to the bound `b` (−∞: the first point, +∞: the last point, finite:
 Axes are lists of rationals; "strictly increasing" is `List.Pairwise (· < ·)`.
 -/
 import GlotaranProofs.Lemmas.C08
+import GlotaranProofs.Lemmas.C08Lists
+import GlotaranProofs.Lemmas.C08Linked
 namespace Glotaran.C08
 open Glotaran.LinAlg Glotaran.C02
 
@@ -429,6 +431,416 @@ theorem relation_no_effect_outside (src tgt : String) (p : Rat) (lo hi : EB) (x 
 
 example : retrieveClps { relations := [⟨"s1", "s2", 3, some [⟨.fin 3, .fin 1⟩]⟩] } ["s1", "s2"] ["s1"] [5] 2 = [5, 15] ∧
     retrieveClps { relations := [⟨"s1", "s2", 3, some [⟨.fin 3, .fin 1⟩]⟩] } ["s1", "s2"] ["s1", "s2"] [5, 7] 4 = [5, 7] := by
+  decide +kernel
+
+/-! ### model weights, both dimensions -/
+
+/-- **`weight_outside_is_nearest` for the model interval**: a covered entry whose model-axis point lies
+    outside the model interval is a model-axis point nearest to the bound it exceeds -/
+theorem weight_outside_is_nearest_model (it : WeightItem) (ma ga : List Rat) (hsm : ma.Pairwise (· < ·))
+    (lo hi : EB) (hiv : it.modelInterval = some (lo, hi)) (m g : Nat) (hm : m < ma.length)
+    (hc : it.covers ma ga m g = true) :
+    ((emin lo hi).le (.fin (ma.getD m 0)) = false → IsNearest ma (emin lo hi) m) ∧
+    (EB.le (.fin (ma.getD m 0)) (emax lo hi) = false → IsNearest ma (emax lo hi) m) := by
+  simp only [WeightItem.covers, Bool.and_eq_true, hiv, sliceOf, inSlice, decide_eq_true_eq] at hc
+  exact slice_outside_is_nearest lo hi ma hsm m hm hc.1.1 hc.1.2
+
+example : (⟨["d"], none, some (.fin (7/5), .fin (13/5)), 2⟩ : WeightItem).covers [0, 1, 2, 3, 4] [0] 1 0 = true ∧
+    (emin (.fin (7/5)) (.fin (13/5))).le (.fin (([0, 1, 2, 3, 4] : List Rat).getD 1 0)) = false ∧
+    (⟨["d"], none, some (.fin (7/5), .fin (13/5)), 2⟩ : WeightItem).covers [0, 1, 2, 3, 4] [0] 0 0 = false := by
+  refine ⟨by decide +kernel, by decide +kernel, by decide +kernel⟩
+
+/-- **the block a weight item multiplies is the product of its two index slices** (model slice ×
+    global slice, a missing interval being the whole axis): entry (m, g) is multiplied by the value iff
+    `m` is in the model slice and `g` in the global slice, every other entry is left as it is; on
+    strictly increasing axes the block contains every point inside both intervals, and every point of
+    the block is, in each dimension separately, inside the interval or an axis point nearest to the
+    bound it exceeds -/
+theorem weight_block_is_product_of_slices (it : WeightItem) (ma ga : List Rat) (w : Mat) (m g : Nat) :
+    (it.covers ma ga m g = true ↔
+      ((sliceOf it.modelInterval ma).1 ≤ m ∧ m < (sliceOf it.modelInterval ma).2) ∧
+      ((sliceOf it.globalInterval ga).1 ≤ g ∧ g < (sliceOf it.globalInterval ga).2)) ∧
+    entry (applyWeight ma ga w it) m g = (if it.covers ma ga m g then entry w m g * it.value else entry w m g) ∧
+    (ma.Pairwise (· < ·) → ga.Pairwise (· < ·) → m < ma.length → g < ga.length →
+      (insideOpt it.modelInterval (ma.getD m 0) ∧ insideOpt it.globalInterval (ga.getD g 0) →
+        it.covers ma ga m g = true) ∧
+      (it.covers ma ga m g = true →
+        InsideOrNearest it.modelInterval ma m ∧ InsideOrNearest it.globalInterval ga g)) := by
+  refine ⟨?_, entry_applyWeight ma ga w it m g, ?_⟩
+  · simp only [WeightItem.covers, inSlice, Bool.and_eq_true, decide_eq_true_eq]
+  · intro hsm hsg hm hg
+    refine ⟨fun h => weight_covers_inside it ma ga hsm hsg m g hm hg h.1 h.2, fun hc => ⟨?_, ?_⟩⟩
+    · cases hiv : it.modelInterval with
+      | none => trivial
+      | some p =>
+        obtain ⟨lo, hi⟩ := p
+        exact weight_outside_is_nearest_model it ma ga hsm lo hi hiv m g hm hc
+    · cases hiv : it.globalInterval with
+      | none => trivial
+      | some p =>
+        obtain ⟨lo, hi⟩ := p
+        exact weight_outside_is_nearest it ma ga hsg lo hi hiv m g hg hc
+
+/-- non-vacuity: model interval (0.9, 1.1) × global interval (2, +∞) on a 3 × 4 block of twos -/
+example : applyWeight [0, 1, 2] [1, 2, 3, 4] [[2, 2, 2, 2], [2, 2, 2, 2], [2, 2, 2, 2]]
+      ⟨["d"], some (.fin 2, .pinf), some (.fin (9/10), .fin (11/10)), 3⟩ =
+    [[2, 2, 2, 2], [2, 6, 6, 6], [2, 2, 2, 2]] ∧
+    sliceOf (some (.fin (9/10), .fin (11/10))) [0, 1, 2] = (1, 2) ∧ sliceOf (some (.fin 2, .pinf)) [1, 2, 3, 4] = (1, 4) := by
+  refine ⟨by decide +kernel, by decide +kernel, by decide +kernel⟩
+
+/-! ### any number of constraints and relations at one index
+
+`RelTargetAt rels L x l`: some relation of the list applies at `x` on the labels `L` (target and
+source among the labels, `x` inside its interval) and has target `l`.  `ConstrainedAt cons x l`: some
+constraint of the list applies at `x` (`zero`: inside, `only`: outside its interval) and has target `l`.
+`NoChain` (C02): the applying relations have pairwise different targets and no source is a target. -/
+
+/-- **which labels remain in the problem at `x`** (any number of relations and constraints): exactly
+    those that are neither the target of an applying relation nor the target of an applying
+    constraint — the removed set is the union of the applying items' targets -/
+theorem reduced_labels_iff (mi : ModelItems) (x : Rat) (lm : LMat2) (hL : lm.labels.Nodup) (l : String) :
+    l ∈ (reduceAt mi x lm).labels ↔
+      l ∈ lm.labels ∧ ¬ RelTargetAt mi.relations lm.labels x l ∧ ¬ ConstrainedAt mi.constraints x l :=
+  mem_reduce_labels mi x lm hL l
+
+/-- two zero constraints with different intervals, an `only` constraint and a relation, at three axis values -/
+example :
+    let mi : ModelItems := { constraints := [⟨false, "a", some [⟨.fin 0, .fin 1⟩]⟩, ⟨false, "b", some [⟨.fin 1, .fin 2⟩]⟩,
+                                             ⟨true, "c", some [⟨.fin 0, .fin 2⟩]⟩],
+                             relations := [⟨"a", "d", 2, some [⟨.fin 2, .pinf⟩]⟩] }
+    let lm : LMat2 := ⟨["a", "b", "c", "d"], [[1, 2, 3, 4]]⟩
+    (reduceAt mi 1 lm).labels = ["c", "d"] ∧ (reduceAt mi 2 lm).labels = ["a", "c"] ∧
+      (reduceAt mi 3 lm).labels = ["a", "b"] ∧ ConstrainedAt mi.constraints 1 "a" ∧ ConstrainedAt mi.constraints 1 "b" ∧
+      RelTargetAt mi.relations lm.labels 2 "d" ∧ ¬ RelTargetAt mi.relations lm.labels 1 "d" := by
+  decide +kernel
+
+/-- **the set of labels reported as zero at `x` is exactly the union of the applying constraints'
+    targets**: a label (not the target of an applying relation) is reported as `0` for *every* reduced
+    coefficient vector iff some constraint of the list that applies at `x` targets it -/
+theorem zeroed_labels_are_union_of_applying_constraints (mi : ModelItems) (x : Rat) (lm : LMat2)
+    (hL : lm.labels.Nodup) (l : String) (hl : l ∈ lm.labels) (hn : ¬ RelTargetAt mi.relations lm.labels x l) :
+    (∀ c : Vec, c.length = (reduceAt mi x lm).labels.length →
+        (retrieveClps mi lm.labels (reduceAt mi x lm).labels c x).getD (lm.labels.idxOf l) 0 = 0) ↔
+      ConstrainedAt mi.constraints x l := by
+  constructor
+  · intro hall
+    by_contra hcon
+    obtain ⟨hmem, hval⟩ := retrieve_free mi x lm hL
+      (unitVec (reduceAt mi x lm).labels.length ((reduceAt mi x lm).labels.idxOf l)) l hl hcon hn
+    have h0 := hall (unitVec (reduceAt mi x lm).labels.length ((reduceAt mi x lm).labels.idxOf l)) (unitVec_length _ _)
+    rw [hval, unitVec_getD _ _ (List.idxOf_lt_length_of_mem hmem)] at h0
+    exact absurd h0 (by decide)
+  · intro hcon c _
+    exact retrieve_constrained_zero mi x lm hL c l hl hcon hn
+
+/-- **a label no applying item targets keeps its estimated coefficient** -/
+theorem free_label_keeps_estimate (mi : ModelItems) (x : Rat) (lm : LMat2) (hL : lm.labels.Nodup) (c : Vec)
+    (l : String) (hl : l ∈ lm.labels) (hcon : ¬ ConstrainedAt mi.constraints x l)
+    (hn : ¬ RelTargetAt mi.relations lm.labels x l) :
+    l ∈ (reduceAt mi x lm).labels ∧
+    (retrieveClps mi lm.labels (reduceAt mi x lm).labels c x).getD (lm.labels.idxOf l) 0 =
+      c.getD ((reduceAt mi x lm).labels.idxOf l) 0 :=
+  retrieve_free mi x lm hL c l hl hcon hn
+
+example :
+    let mi : ModelItems := { constraints := [⟨false, "a", some [⟨.fin 0, .fin 1⟩]⟩, ⟨false, "b", some [⟨.fin 1, .fin 2⟩]⟩] }
+    retrieveClps mi ["a", "b", "c"] (reduceAt mi 1 ⟨["a", "b", "c"], [[1, 2, 3]]⟩).labels [7] 1 = [0, 0, 7] ∧
+    retrieveClps mi ["a", "b", "c"] (reduceAt mi 2 ⟨["a", "b", "c"], [[1, 2, 3]]⟩).labels [5, 7] 2 = [5, 0, 7] := by
+  decide +kernel
+
+/-- **related targets get `parameter · source` from the unique applying relation** (any number of
+    relations without chains): every relation that applies at `x` fixes its target's reported
+    coefficient to `parameter ·` the reported coefficient of its source, and it is the only applying
+    relation with that target -/
+theorem related_targets_get_param_times_source (mi : ModelItems) (full reduced : List String) (c : Vec) (x : Rat)
+    (hnc : NoChain mi.relations full x) (r : Relation) (hr : r ∈ mi.relations)
+    (ha : appliesRel full x r = true) :
+    (retrieveClps mi full reduced c x).getD (full.idxOf r.target) 0 =
+      r.param * (retrieveClps mi full reduced c x).getD (full.idxOf r.source) 0 ∧
+    ∀ r' ∈ mi.relations, appliesRel full x r' = true → r'.target = r.target → r' = r := by
+  refine ⟨retrieve_related_aux mi full reduced c x hnc r hr ha, fun r' hr' ha' ht => ?_⟩
+  exact applying_relation_unique mi.relations full x hnc r' r hr' hr ha' ha ht
+
+example :
+    let mi : ModelItems := { relations := [⟨"a", "b", 2, some [⟨.fin 0, .fin 1⟩]⟩, ⟨"a", "c", 3, none⟩,
+                                           ⟨"c", "b", 5, some [⟨.fin 2, .fin 3⟩]⟩] }
+    NoChain mi.relations ["a", "b", "c"] 1 ∧ ¬ NoChain mi.relations ["a", "b", "c"] 2 ∧
+      retrieveClps mi ["a", "b", "c"] ["a"] [7] 1 = [7, 14, 21] := by
+  decide +kernel
+
+/-- **tie to C02's `reduced_problem_equiv`, both directions** (any number of items, no chains, a well
+    formed matrix): the reduced problem at `x` is the full problem restricted to exactly the
+    coefficient vectors that are `0` at the applying constraints' targets and `parameter · source` at
+    the applying relations' targets —
+    (1) every reduced coefficient vector `c` gives such a full vector `e = retrieve_clps c` with
+        `reduced · c = full · e`;
+    (2) every such full vector `e` is `retrieve_clps` of its own restriction to the remaining labels,
+        so `full · e = reduced · (restriction of e)`. -/
+theorem constrained_model_is_reduced_problem (mi : ModelItems) (x : Rat) (lm : LMat2) (hwf : WF lm)
+    (hnc : NoChain mi.relations lm.labels x) :
+    (∀ c : Vec, c.length = (reduceAt mi x lm).labels.length →
+      let e := retrieveClps mi lm.labels (reduceAt mi x lm).labels c x
+      mulVec (reduceAt mi x lm).m c = mulVec lm.m e ∧
+      (∀ l ∈ lm.labels, ConstrainedAt mi.constraints x l → ¬ RelTargetAt mi.relations lm.labels x l →
+        e.getD (lm.labels.idxOf l) 0 = 0) ∧
+      (∀ r ∈ mi.relations, appliesRel lm.labels x r = true →
+        e.getD (lm.labels.idxOf r.target) 0 = r.param * e.getD (lm.labels.idxOf r.source) 0)) ∧
+    (∀ e : Vec, e.length = lm.labels.length →
+      (∀ l ∈ lm.labels, ConstrainedAt mi.constraints x l → ¬ RelTargetAt mi.relations lm.labels x l →
+        e.getD (lm.labels.idxOf l) 0 = 0) →
+      (∀ r ∈ mi.relations, appliesRel lm.labels x r = true →
+        e.getD (lm.labels.idxOf r.target) 0 = r.param * e.getD (lm.labels.idxOf r.source) 0) →
+      let c := restrictTo lm.labels (reduceAt mi x lm).labels e
+      c.length = (reduceAt mi x lm).labels.length ∧
+      retrieveClps mi lm.labels (reduceAt mi x lm).labels c x = e ∧
+      mulVec lm.m e = mulVec (reduceAt mi x lm).m c) := by
+  refine ⟨fun c hc => ⟨reduced_problem_equiv_aux mi x lm hwf hnc c hc, ?_, ?_⟩, fun e he hzero hrel => ?_⟩
+  · intro l hl hcon hn
+    exact retrieve_constrained_zero mi x lm hwf.1 c l hl hcon hn
+  · intro r hr ha
+    exact retrieve_related_aux mi _ _ c x hnc r hr ha
+  · have hlen : (restrictTo lm.labels (reduceAt mi x lm).labels e).length = (reduceAt mi x lm).labels.length := by
+      simp [restrictTo]
+    have hret := retrieve_restrict mi x lm hwf.1 hnc e he hzero hrel
+    refine ⟨hlen, hret, ?_⟩
+    have := reduced_problem_equiv_aux mi x lm hwf hnc _ hlen
+    rw [hret] at this
+    exact this.symm
+
+/-- non-vacuity: b = 2·a (relation), c constrained, d free; the full vector [5, 10, 0, 7] satisfies the
+    items, restricts to [5, 7] and is recovered; full · e = reduced · c = [50] -/
+example :
+    let mi : ModelItems := { relations := [⟨"a", "b", 2, some [⟨.fin 0, .fin 1⟩]⟩],
+                             constraints := [⟨false, "c", some [⟨.fin 1, .fin 2⟩]⟩] }
+    let lm : LMat2 := ⟨["a", "b", "c", "d"], [[1, 1, 1, 5]]⟩
+    WF lm ∧ NoChain mi.relations lm.labels 1 ∧
+      restrictTo lm.labels (reduceAt mi 1 lm).labels [5, 10, 0, 7] = [5, 7] ∧
+      retrieveClps mi lm.labels (reduceAt mi 1 lm).labels [5, 7] 1 = [5, 10, 0, 7] ∧
+      mulVec lm.m [5, 10, 0, 7] = mulVec (reduceAt mi 1 lm).m [5, 7] := by
+  decide +kernel
+
+/-! ### linked groups with a link tolerance: the items act on the aligned coordinate -/
+
+/-- **exact characterisation of "member inside, aligned point outside"**: the member coordinate `x`
+    lies in the closed interval and the aligned coordinate `v` does not iff a finite bound `b` of the
+    interval separates them: the lower bound with `v < b ≤ x`, or the upper bound with `x ≤ b < v` -/
+theorem member_inside_aligned_outside_iff (lo hi : EB) (x v : Rat) :
+    (Interval.contains ⟨lo, hi⟩ x = true ∧ Interval.contains ⟨lo, hi⟩ v = false) ↔
+      ∃ b : Rat, (emin lo hi = .fin b ∧ v < b ∧ b ≤ x ∧ EB.le (.fin x) (emax lo hi) = true) ∨
+                 (emax lo hi = .fin b ∧ x ≤ b ∧ b < v ∧ (emin lo hi).le (.fin x) = true) :=
+  inside_outside_iff lo hi x v
+
+/-- member 5.25 is merged into aligned 5 (tolerance 0.5): inside (5.1, 6) itself, its aligned point is not -/
+example : Interval.contains ⟨.fin (51/10), .fin 6⟩ (21/4) = true ∧ Interval.contains ⟨.fin (51/10), .fin 6⟩ 5 = false ∧
+    emin (.fin (51/10)) (.fin 6) = .fin (51/10) := by
+  refine ⟨by decide +kernel, by decide +kernel, by decide +kernel⟩
+
+/-- **a member point merged into an aligned point (`|v − x| ≤ tol`) takes another decision than its own
+    coordinate would only across a bound within the tolerance**: if an item (no interval / a list of
+    intervals) decides differently at `x` and at `v`, one of its finite bounds lies in the closed range
+    between `x` and `v`, hence within `tol` of `x`.  Contrapositive: a member point farther than `tol`
+    from every finite bound is affected iff it is itself inside. -/
+theorem member_and_aligned_disagree_only_across_a_bound (ivs : Option (List Interval)) (x v tol : Rat)
+    (hm : v = x ∨ |v - x| ≤ tol) (hne : applies ivs x ≠ applies ivs v) :
+    ∃ l, ivs = some l ∧ ∃ iv ∈ l, ∃ b, Interval.hasBound iv b ∧ min x v ≤ b ∧ b ≤ max x v ∧ |b - x| ≤ tol := by
+  obtain ⟨l, hl, iv, hiv, b, hb, h1, h2⟩ := applies_ne_bound_between ivs x v hne
+  refine ⟨l, hl, iv, hiv, b, hb, h1, h2, ?_⟩
+  rcases hm with rfl | hm
+  · exact absurd rfl hne
+  · exact le_trans (between_dist x v b h1 h2) hm
+
+example : applies (some [⟨.fin (51/10), .fin 6⟩]) (21/4) ≠ applies (some [⟨.fin (51/10), .fin 6⟩]) 5 ∧
+    |(5 : Rat) - 21/4| ≤ 1/2 ∧ Interval.hasBound ⟨.fin (51/10), .fin 6⟩ (51/10) := by
+  refine ⟨by decide +kernel, by decide +kernel, Or.inl rfl⟩
+
+/-- the single-interval form with the strict distance: a member point inside the interval whose aligned
+    point is outside lies less than `tol` inside a finite bound -/
+theorem member_inside_aligned_outside_within_tol (lo hi : EB) (x v tol : Rat) (hm : v = x ∨ |v - x| ≤ tol)
+    (hx : Interval.contains ⟨lo, hi⟩ x = true) (hv : Interval.contains ⟨lo, hi⟩ v = false) :
+    ∃ b : Rat, (emin lo hi = .fin b ∧ v < b ∧ b ≤ x ∧ x - b < tol) ∨ (emax lo hi = .fin b ∧ x ≤ b ∧ b < v ∧ b - x < tol) := by
+  have hvx : |v - x| ≤ tol := by
+    rcases hm with rfl | hm
+    · rw [hx] at hv; cases hv
+    · exact hm
+  obtain ⟨b, hb | hb⟩ := (inside_outside_iff lo hi x v).mp ⟨hx, hv⟩
+  · obtain ⟨he, h1, h2, _⟩ := hb
+    refine ⟨b, Or.inl ⟨he, h1, h2, ?_⟩⟩
+    have := neg_abs_le (v - x)
+    linarith
+  · obtain ⟨he, h1, h2, _⟩ := hb
+    refine ⟨b, Or.inr ⟨he, h1, h2, ?_⟩⟩
+    have := le_abs_self (v - x)
+    linarith
+
+example : ((5 : Rat) = 21/4 ∨ |(5 : Rat) - 21/4| ≤ 1/2) ∧ Interval.contains ⟨.fin (41/8), .fin 6⟩ (21/4) = true ∧
+    Interval.contains ⟨.fin (41/8), .fin 6⟩ 5 = false ∧ emin (.fin (41/8)) (.fin 6) = .fin (41/8) ∧ (21/4 : Rat) - 41/8 < 1/2 := by
+  refine ⟨Or.inr (by decide +kernel), by decide +kernel, by decide +kernel, by decide +kernel, by decide +kernel⟩
+
+/-- **in a linked group every constraint and relation is decided at the ALIGNED coordinate of the
+    shared clp, and the member points inherit the decision.**  For the problems `linkedProblems` builds
+    (one per aligned point `v`, in the order of the aligned axis):
+    * `x = v`, and a label stays in the problem of `v` iff it is a label of the stacked matrix that is
+      neither the target of a relation applying at `v` nor the target of a constraint applying at `v`
+      (`zero`: `v` inside its interval, `only`: `v` outside);
+    * every member `(d, j)` of `v` — the `j`-th point of dataset `d`'s own global axis, whose block is
+      stacked into this problem and whose reported clps are the clps of this problem — has an own
+      coordinate `x` with `v = x` or `|v − x| ≤ tolerance`.
+    Hence "affects every axis point inside the interval" holds for every member point whose aligned
+    point is inside; a member point inside whose aligned point is outside is not affected
+    (`member_inside_aligned_outside_iff`: it lies within the tolerance of a bound). -/
+theorem linked_items_act_on_aligned_coordinate (mi : ModelItems) (g : Group) (axis : List Rat)
+    (ps : List IndexProblem) (h : linkedProblems mi g = some (axis, ps))
+    (hN : ∀ d ∈ g.datasets, ∀ lm, datasetMatrix d.mcs = some lm → lm.labels.Nodup) :
+    ∃ aligned, alignAxes (g.datasets.map (·.globalAxis)) g.tol g.method = some aligned ∧
+      axis = alignedAxisOf aligned ∧ ps.map (·.x) = axis ∧
+      (∀ p ∈ ps, p.x ∈ axis ∧ ∀ l, l ∈ p.reduced.labels ↔
+          l ∈ p.fullLabels ∧ ¬ RelTargetAt mi.relations p.fullLabels p.x l ∧
+            ¬ ConstrainedAt mi.constraints p.x l) ∧
+      (∀ v ∈ axis, ∀ d j, (d, j) ∈ memberIdx aligned v →
+          ∃ ds x, g.datasets[d]? = some ds ∧ ds.globalAxis[j]? = some x ∧ (v = x ∨ |v - x| ≤ g.tol)) := by
+  obtain ⟨hsorted, hx, aligned, hal, hax, _⟩ := C09.c02_aligned_axis_strictly_increasing mi g axis ps h
+  refine ⟨aligned, hal, hax, hx, ?_, ?_⟩
+  · intro p hp
+    obtain ⟨hpx, stacked, hnd, hfull, hred, _⟩ := linkedProblems_reduced mi g axis ps h hN p hp
+    refine ⟨hpx, fun l => ?_⟩
+    rw [hred, hfull]
+    exact mem_reduce_labels mi p.x stacked hnd l
+  · intro v _ d j hm
+    obtain ⟨ax, x, hax', hxj, hd⟩ := member_within_tol _ aligned g.tol g.method hal v d j hm
+    rw [List.getElem?_map] at hax'
+    cases hds : g.datasets[d]? with
+    | none => rw [hds] at hax'; cases hax'
+    | some ds =>
+      rw [hds] at hax'
+      simp only [Option.map_some, Option.some.injEq] at hax'
+      subst hax'
+      exact ⟨ds, x, rfl, hxj, hd⟩
+
+/-- two datasets, axes [4, 5, 6] and [5.25, 6.25], tolerance 0.5: 5.25 ↦ 5, 6.25 ↦ 6; a zero constraint on
+    (5.1, 5.5) contains the member point 5.25 but not its aligned point 5, so `s` stays in the problem of
+    aligned point 5 (for both members); a constraint on (4.9, 5.05) does not contain 5.25 but removes `s` there -/
+def tolGroup : Group :=
+  ⟨true, .vp, 1/2, .nearest,
+    [⟨"d1", [4, 5, 6], [[1, 2, 3], [4, 5, 6]], none, none, [⟨⟨["s", "u"], .d2 [[1, 0], [0, 1]]⟩, none⟩], []⟩,
+     ⟨"d2", [21/4, 25/4], [[7, 8], [9, 10]], none, none, [⟨⟨["s", "u"], .d2 [[1, 1], [1, 2]]⟩, none⟩], []⟩]⟩
+
+example :
+    (linkedProblems { constraints := [⟨false, "s", some [⟨.fin (51/10), .fin (11/2)⟩]⟩] } tolGroup).map
+      (fun r => (r.1, r.2.map (·.reduced.labels))) = some ([4, 5, 6], [["s", "u"], ["s", "u"], ["s", "u"]]) ∧
+    (linkedProblems { constraints := [⟨false, "s", some [⟨.fin (49/10), .fin (101/20)⟩]⟩] } tolGroup).map
+      (fun r => (r.1, r.2.map (·.reduced.labels))) = some ([4, 5, 6], [["s", "u"], ["u"], ["s", "u"]]) ∧
+    alignAxes (tolGroup.datasets.map (·.globalAxis)) tolGroup.tol tolGroup.method = some [[4, 5, 6], [5, 6]] ∧
+    memberIdx [[4, 5, 6], [5, 6]] 5 = [(0, 1), (1, 0)] := by
+  decide +kernel
+
+example : ∀ d ∈ tolGroup.datasets, ∀ lm, datasetMatrix d.mcs = some lm → lm.labels.Nodup := by
+  intro d hd lm hlm
+  simp only [tolGroup, List.mem_cons, List.not_mem_nil, or_false] at hd
+  rcases hd with rfl | rfl <;> (simp [datasetMatrix, McOut.scaled] at hlm; subst hlm; decide)
+
+/-- **the aligned coordinate is itself an axis point of a member**: the member of the aligned point `v`
+    with the smallest dataset number (the dataset that introduced `v`) has `v` as its own coordinate — so
+    "the items act on the aligned coordinate" means: the decision of the first member's own coordinate
+    is shared by all members of the clp -/
+theorem aligned_coordinate_is_first_members_own (g : Group) (aligned : List (List Rat))
+    (hal : alignAxes (g.datasets.map (·.globalAxis)) g.tol g.method = some aligned) (v : Rat) (d j : Nat)
+    (hm : (d, j) ∈ memberIdx aligned v) (hfirst : ∀ d' j', (d', j') ∈ memberIdx aligned v → d ≤ d') :
+    ∃ ds, g.datasets[d]? = some ds ∧ ds.globalAxis[j]? = some v := by
+  obtain ⟨ax, hax, hj⟩ := first_member_own _ aligned g.tol g.method hal v d j hm hfirst
+  rw [List.getElem?_map] at hax
+  cases hds : g.datasets[d]? with
+  | none => rw [hds] at hax; cases hax
+  | some ds =>
+    rw [hds] at hax
+    simp only [Option.map_some, Option.some.injEq] at hax
+    subst hax
+    exact ⟨ds, rfl, hj⟩
+
+example : (0, 1) ∈ memberIdx [[4, 5, 6], [5, 6]] 5 ∧ (∀ d' j', (d', j') ∈ memberIdx [[4, 5, 6], [5, 6]] 5 → 0 ≤ d') ∧
+    (tolGroup.datasets[0]?.map (·.globalAxis[1]?)) = some (some 5) := by
+  refine ⟨by decide +kernel, fun _ _ _ => Nat.zero_le _, by decide +kernel⟩
+
+/-- **the zero constraint of `zero_constraint_acts_on_interval`, for a linked group**: in the problem of
+    the aligned point `p.x` the constrained label is removed — for all members of the point — iff the
+    ALIGNED coordinate lies in (the union of) the closed intervals; an `only` constraint iff it does not -/
+theorem linked_constraint_affects_members_iff_aligned_inside (only : Bool) (t : String) (ivs : Option (List Interval))
+    (g : Group) (axis : List Rat) (ps : List IndexProblem)
+    (h : linkedProblems { constraints := [⟨only, t, ivs⟩] } g = some (axis, ps))
+    (hN : ∀ d ∈ g.datasets, ∀ lm, datasetMatrix d.mcs = some lm → lm.labels.Nodup)
+    (p : IndexProblem) (hp : p ∈ ps) (ht : t ∈ p.fullLabels) :
+    t ∉ p.reduced.labels ↔ (if only then applies ivs p.x = false else applies ivs p.x = true) := by
+  obtain ⟨_, _, _, _, hdec, _⟩ := linked_items_act_on_aligned_coordinate _ g axis ps h hN
+  have hiff := (hdec p hp).2 t
+  have hrel : ¬ RelTargetAt ({ constraints := [⟨only, t, ivs⟩] } : ModelItems).relations p.fullLabels p.x t := by
+    rintro ⟨r, hr, _⟩; cases hr
+  have hcon : ConstrainedAt ({ constraints := [⟨only, t, ivs⟩] } : ModelItems).constraints p.x t ↔
+      (if only then applies ivs p.x = false else applies ivs p.x = true) := by
+    simp only [ConstrainedAt, List.mem_singleton, exists_eq_left, and_true, Constraint.appliesAt]
+    cases only <;> simp
+  rw [hiff, ← hcon]
+  constructor
+  · intro hnot
+    by_contra hc
+    exact hnot ⟨ht, hrel, hc⟩
+  · rintro hc ⟨_, _, hn⟩
+    exact hn hc
+
+/-- in `tolGroup` the problem of the aligned point 5 (members: 5 of d1 and 5.25 of d2): the zero constraint
+    on (5.125, 5.5) leaves `s` in, the one on (4.875, 5.0625) removes it -/
+example :
+    (linkedProblems { constraints := [⟨false, "s", some [⟨.fin (41/8), .fin (11/2)⟩]⟩] } tolGroup).map
+      (fun r => r.2.map (fun p => (p.x, decide ("s" ∈ p.reduced.labels)))) = some [(4, true), (5, true), (6, true)] ∧
+    (linkedProblems { constraints := [⟨false, "s", some [⟨.fin (39/8), .fin (81/16)⟩]⟩] } tolGroup).map
+      (fun r => r.2.map (fun p => (p.x, decide ("s" ∈ p.reduced.labels)))) = some [(4, true), (5, false), (6, true)] := by
+  decide +kernel
+
+/-- **equal-area penalties of a linked group are taken over the aligned axis**, which is strictly
+    increasing: every aligned point inside a penalty interval is summed, nothing beyond the aligned
+    points nearest to the bounds (the area theorems above apply verbatim to the axis `linkedGroup` hands
+    to `clpPenalties`) -/
+theorem linked_area_acts_on_aligned_axis (mi : ModelItems) (g : Group) (axis : List Rat)
+    (ps : List IndexProblem) (h : linkedProblems mi g = some (axis, ps)) (iv : Interval) (k : Nat)
+    (hk : k < axis.length) :
+    axis.Pairwise (· < ·) ∧
+    (iv.contains (axis.getD k 0) = true → ∃ s e, areaSlice iv axis = some (s, e) ∧ s ≤ k ∧ k < e) ∧
+    (∀ s e, areaSlice iv axis = some (s, e) → s ≤ k → k < e →
+      ((emin iv.lo iv.hi).le (.fin (axis.getD k 0)) = false → IsNearest axis (emin iv.lo iv.hi) k) ∧
+      (EB.le (.fin (axis.getD k 0)) (emax iv.lo iv.hi) = false → IsNearest axis (emax iv.lo iv.hi) k)) := by
+  have hs := (C09.c02_aligned_axis_strictly_increasing mi g axis ps h).1
+  exact ⟨hs, fun hin => area_slice_covers_inside iv axis hs k hk hin,
+    fun s e ha h1 h2 => area_slice_outside_is_nearest iv axis hs s e k ha hk h1 h2⟩
+
+example : (linkedProblems {} tolGroup).map (·.1) = some [4, 5, 6] ∧ areaSlice ⟨.fin (41/8), .pinf⟩ [4, 5, 6] = some (1, 3) := by
+  decide +kernel
+
+/-- **what is reported for the members**: in the problem of the aligned point `p.x` a label targeted by a
+    constraint that applies at `p.x` (and by no applying relation) is reported as `0` whatever the
+    solver returns, a label targeted by no applying item keeps the estimated coefficient — this is the
+    vector `linkedGroup` / `C03.linkedResults` hand to every member dataset of the aligned point -/
+theorem linked_reported_clps_follow_aligned_decision (mi : ModelItems) (g : Group) (axis : List Rat)
+    (ps : List IndexProblem) (h : linkedProblems mi g = some (axis, ps))
+    (hN : ∀ d ∈ g.datasets, ∀ lm, datasetMatrix d.mcs = some lm → lm.labels.Nodup)
+    (p : IndexProblem) (hp : p ∈ ps) (c : Vec) (l : String) (hl : l ∈ p.fullLabels)
+    (hn : ¬ RelTargetAt mi.relations p.fullLabels p.x l) :
+    (ConstrainedAt mi.constraints p.x l →
+      (retrieveClps mi p.fullLabels p.reduced.labels c p.x).getD (p.fullLabels.idxOf l) 0 = 0) ∧
+    (¬ ConstrainedAt mi.constraints p.x l →
+      (retrieveClps mi p.fullLabels p.reduced.labels c p.x).getD (p.fullLabels.idxOf l) 0 =
+        c.getD (p.reduced.labels.idxOf l) 0) := by
+  obtain ⟨_, stacked, hnd, hfull, hred, _⟩ := linkedProblems_reduced mi g axis ps h hN p hp
+  rw [hfull] at hl hn
+  rw [hfull, hred]
+  exact ⟨fun hcon => retrieve_constrained_zero mi p.x stacked hnd c l hl hcon hn,
+    fun hcon => (retrieve_free mi p.x stacked hnd c l hl hcon hn).2⟩
+
+/-- non-vacuity: the problem of aligned point 5 of `tolGroup` under the constraint on (4.875, 5.0625): `s` is
+    constrained at 5 and reported as 0 for both members, `u` keeps the estimate -/
+example :
+    let mi : ModelItems := { constraints := [⟨false, "s", some [⟨.fin (39/8), .fin (81/16)⟩]⟩] }
+    (linkedProblems mi tolGroup).map (fun r => r.2.map (fun p => (p.x, p.fullLabels, p.reduced.labels))) =
+      some [(4, ["s", "u"], ["s", "u"]), (5, ["s", "u"], ["u"]), (6, ["s", "u"], ["s", "u"])] ∧
+    ConstrainedAt mi.constraints 5 "s" ∧ ¬ RelTargetAt mi.relations ["s", "u"] 5 "s" ∧ ¬ ConstrainedAt mi.constraints 5 "u" ∧
+    retrieveClps mi ["s", "u"] ["u"] [7] 5 = [0, 7] := by
   decide +kernel
 
 end Glotaran.C08
